@@ -10,6 +10,7 @@ import (
 	"os"
 	"sort"
 	"strconv"
+	"strings"
 	"testing"
 	"time"
 
@@ -172,7 +173,8 @@ func TestWorker(t *testing.T) {
 				os.Exit(2)
 			}
 			res.Violations = append(res.Violations, ViolationRec{mv.Oracle, mv.Detail, path})
-			if len(res.Violations) >= maxViol {
+			if len(res.Violations) >= maxViol || strings.Contains(mv.Detail, "of real time") {
+				// (after a real-time watchdog verdict a goroutine is still spinning in this process: stop here)
 				res.StoppedBy = "violations"
 				break
 			}
